@@ -64,13 +64,15 @@ Local Notation mk le lv vx vkeys verr vkey vvalid evs :=
      fields := flds; lists := lsts; events := evs; inputs := inps |}.
 
 (* the inner loop: for _, key := range keys *)
-Lemma keys_loop_src (F : state -> state * ctl) le vx vkeys :
+Definition goes_on (c : ctl) : Prop := c = Next \/ c = Cont.     (* both mean: on to the next element *)
+
+Lemma keys_loop_src (F : state -> state * ctl) le vx vkeys cF cE : goes_on cF -> goes_on cE ->
   (forall k lv verr vvalid evs,
      F (mk le (VZ lv) vx vkeys verr (VS k) vvalid evs) =
      match validator k with
      | VTrue => (mk le (VZ lv) vx vkeys (VZ 0) (VS k) (VZ 1) (evs ++ [vcall k; ("next"%string, [VZ 0])]), Ret [VZ 200])
-     | VFalse => (mk le (VZ 8) vx vkeys (VZ 0) (VS k) (VZ 0) (evs ++ [vcall k]), Next)
-     | VErr => (mk le (VZ 9) vx vkeys (VZ 9) (VS k) (VZ 0) (evs ++ [vcall k]), Cont)
+     | VFalse => (mk le (VZ 8) vx vkeys (VZ 0) (VS k) (VZ 0) (evs ++ [vcall k]), cF)
+     | VErr => (mk le (VZ 9) vx vkeys (VZ 9) (VS k) (VZ 0) (evs ++ [vcall k]), cE)
      end) ->
   forall ks lv verr vkey vvalid evs,
   exists lv' verr' vkey' vvalid',
@@ -80,17 +82,25 @@ Lemma keys_loop_src (F : state -> state * ctl) le vx vkeys :
      if ran then Ret [VZ 200] else Next)) /\
   (lv' = 0 <-> lv = 0 /\ snd (fst (try_keys validator ks [])) = false).
 Proof.
-  intros HF ks. induction ks as [|k r IH]; intros lv verr vkey vvalid evs.
+  intros HcF HcE HF ks. induction ks as [|k r IH]; intros lv verr vkey vvalid evs.
   - exists lv, verr, vkey, vvalid. cbn. rewrite app_nil_r. split; [reflexivity|tauto].
   - cbn [map range_loop try_keys].
     change (set_local (mk le (VZ lv) vx vkeys verr vkey vvalid evs) "key" (VS k)) with (mk le (VZ lv) vx vkeys verr (VS k) vvalid evs).
     rewrite HF. destruct (validator k) eqn:Ev.
     + exists lv, (VZ 0), (VS k), (VZ 1). cbn. split; [reflexivity|tauto].
-    + destruct (IH 8 (VZ 0) (VS k) (VZ 0) (evs ++ [vcall k])%list) as (lv' & verr' & vkey' & vvalid' & Hr & Hl).
+    + assert (Hgo : forall st, match cF with Next => range_loop F "key" (map VS r) st | Cont => range_loop F "key" (map VS r) st
+                                | Brk => (st, Next) | Ret w => (st, Ret w) end = range_loop F "key" (map VS r) st)
+        by (intro st; destruct HcF as [-> | ->]; reflexivity).
+      rewrite Hgo. clear Hgo.
+      destruct (IH 8 (VZ 0) (VS k) (VZ 0) (evs ++ [vcall k])%list) as (lv' & verr' & vkey' & vvalid' & Hr & Hl).
       exists lv', verr', vkey', vvalid'. rewrite Hr. rewrite (try_keys_app r ([] ++ [k])%list).
       destruct (try_keys validator r []) as [[ran comp] cs]. cbn [fst snd app map] in *. rewrite <- !app_assoc. cbn [app].
       split; [reflexivity|]. split; [intro H; apply Hl in H; lia | intros [_ H]; discriminate].
-    + destruct (IH 9 (VZ 9) (VS k) (VZ 0) (evs ++ [vcall k])%list) as (lv' & verr' & vkey' & vvalid' & Hr & Hl).
+    + assert (Hgo : forall st, match cE with Next => range_loop F "key" (map VS r) st | Cont => range_loop F "key" (map VS r) st
+                                | Brk => (st, Next) | Ret w => (st, Ret w) end = range_loop F "key" (map VS r) st)
+        by (intro st; destruct HcE as [-> | ->]; reflexivity).
+      rewrite Hgo. clear Hgo.
+      destruct (IH 9 (VZ 9) (VS k) (VZ 0) (evs ++ [vcall k])%list) as (lv' & verr' & vkey' & vvalid' & Hr & Hl).
       exists lv', verr', vkey', vvalid'. rewrite Hr. rewrite (try_keys_app r ([] ++ [k])%list).
       destruct (try_keys validator r []) as [[ran comp] cs]. cbn [fst snd app map] in *. rewrite <- !app_assoc. cbn [app].
       split; [reflexivity|]. split; [intro H; apply Hl in H; lia | intros [_ H]; discriminate].
@@ -122,11 +132,11 @@ Fixpoint kevents (ls : list lookup) : list (string * list val) :=
   end.
 
 (* the outer loop: for _, extractor := range extractors *)
-Lemma extractors_loop_src (Fout Fin : state -> state * ctl) :
+Lemma extractors_loop_src (Fout Fin : state -> state * ctl) cN cF cE :
   (* one iteration whose extractor finds nothing: remember the error, continue *)
   (forall l e le lv vkeys verr vkey vvalid evs, extract l = inr e ->
      Fout (mk (VZ le) (VZ lv) (ext_val l) vkeys verr vkey vvalid evs) =
-     (mk (VZ (xcode e)) (VZ lv) (ext_val l) (VL []) (VZ (xcode e)) vkey vvalid (evs ++ [xcall l]), Cont)) ->
+     (mk (VZ (xcode e)) (VZ lv) (ext_val l) (VL []) (VZ (xcode e)) vkey vvalid (evs ++ [xcall l]), cN)) ->
   (* one iteration whose extractor finds keys: the inner loop over them *)
   (forall l keys le lv vkeys verr vkey vvalid evs, extract l = inl keys ->
      Fout (mk (VZ le) (VZ lv) (ext_val l) vkeys verr vkey vvalid evs) =
@@ -135,23 +145,24 @@ Lemma extractors_loop_src (Fout Fin : state -> state * ctl) :
      Fin (mk le (VZ lv) vx vkeys verr (VS k) vvalid evs) =
      match validator k with
      | VTrue => (mk le (VZ lv) vx vkeys (VZ 0) (VS k) (VZ 1) (evs ++ [vcall k; ("next"%string, [VZ 0])]), Ret [VZ 200])
-     | VFalse => (mk le (VZ 8) vx vkeys (VZ 0) (VS k) (VZ 0) (evs ++ [vcall k]), Next)
-     | VErr => (mk le (VZ 9) vx vkeys (VZ 9) (VS k) (VZ 0) (evs ++ [vcall k]), Cont)
+     | VFalse => (mk le (VZ 8) vx vkeys (VZ 0) (VS k) (VZ 0) (evs ++ [vcall k]), cF)
+     | VErr => (mk le (VZ 9) vx vkeys (VZ 9) (VS k) (VZ 0) (evs ++ [vcall k]), cE)
      end) ->
+  goes_on cN -> goes_on cF -> goes_on cE ->
   forall ls le lv vx vkeys verr vkey vvalid evs,
   exists le' lv' vx' vkeys' verr' vkey' vvalid',
   range_loop Fout "extractor" (map ext_val ls) (mk (VZ le) (VZ lv) vx vkeys verr vkey vvalid evs) =
     (mk (VZ le') (VZ lv') vx' vkeys' verr' vkey' vvalid' (evs ++ kevents ls), if ranL ls then Ret [VZ 200] else Next) /\
   (ranL ls = false -> (lv' = 0 <-> lv = 0 /\ compL ls = false)).
 Proof.
-  intros Hnone Hsome HFin ls. induction ls as [|l r IH]; intros le lv vx vkeys verr vkey vvalid evs.
+  intros Hnone Hsome HFin HcN HcF HcE ls. induction ls as [|l r IH]; intros le lv vx vkeys verr vkey vvalid evs.
   - exists le, lv, vx, vkeys, verr, vkey, vvalid. cbn. rewrite app_nil_r. split; [reflexivity|tauto].
   - cbn [map range_loop ranL compL kevents].
     change (set_local (mk (VZ le) (VZ lv) vx vkeys verr vkey vvalid evs) "extractor" (ext_val l))
       with (mk (VZ le) (VZ lv) (ext_val l) vkeys verr vkey vvalid evs).
     destruct (extract l) as [keys|e] eqn:El.
     + rewrite (Hsome l keys le lv vkeys verr vkey vvalid evs El), reraise_id.
-      destruct (keys_loop_src Fin (VZ le) (ext_val l) (VL (map VS keys)) (HFin (VZ le) (ext_val l) (VL (map VS keys)))
+      destruct (keys_loop_src Fin (VZ le) (ext_val l) (VL (map VS keys)) cF cE HcF HcE (HFin (VZ le) (ext_val l) (VL (map VS keys)))
                   keys lv (VZ 0) vkey vvalid (evs ++ [xcall l])%list) as (lv1 & verr1 & vkey1 & vvalid1 & Hr & Hl).
       rewrite Hr. destruct (try_keys validator keys []) as [[ran comp] cs]. cbn [fst snd] in *.
       destruct ran.
@@ -161,6 +172,10 @@ Proof.
         exists le', lv', vx', vkeys', verr', vkey', vvalid'. rewrite Hr2. cbn [orb]. rewrite app_nil_r, <- !app_assoc. cbn [app].
         split; [reflexivity|]. intro Hran. specialize (Hl2 Hran). rewrite Hl2, Hl. destruct comp; cbn [orb]; intuition congruence.
     + rewrite (Hnone l e le lv vkeys verr vkey vvalid evs El).
+      assert (Hgo : forall st, match cN with Next => range_loop Fout "extractor" (map ext_val r) st | Cont => range_loop Fout "extractor" (map ext_val r) st
+                                | Brk => (st, Next) | Ret w => (st, Ret w) end = range_loop Fout "extractor" (map ext_val r) st)
+        by (intro st; destruct HcN as [-> | ->]; reflexivity).
+      rewrite Hgo. clear Hgo.
       destruct (IH (xcode e) lv (ext_val l) (VL []) (VZ (xcode e)) vkey vvalid (evs ++ [xcall l])%list)
         as (le' & lv' & vx' & vkeys' & verr' & vkey' & vvalid' & Hr2 & Hl2).
       exists le', lv', vx', vkeys', verr', vkey', vvalid'. rewrite Hr2. rewrite <- !app_assoc. cbn [app]. split; [reflexivity|exact Hl2].
@@ -249,6 +264,9 @@ Proof.
   - (* one key *)
     intros le vx vkeys k lv verr vvalid evs. unfold vcall.
     destruct (validator k) eqn:Ev; key_eval; rewrite ?Ev; key_eval; rewrite <- ?app_assoc; reflexivity.
+  - unfold goes_on; auto.
+  - unfold goes_on; auto.
+  - unfold goes_on; auto.
   - (* after the loops *)
     rewrite Hr. clear Hr. unfold called_next.
     destruct (ranL ls) eqn:Er.
